@@ -167,7 +167,7 @@ def run(tier):
     b = vlib.build_property("C12")
     okx, xlog = vlib.build_extraction()
     n = 96 if tier == "quick" else 2400
-    jobs = compiles.plan(FAMS, n, vlib.seed(), tag="c12", capture=False)
+    jobs = compiles.corpus_jobs(capture=False) + compiles.plan(FAMS, n, vlib.seed(), tag="c12", capture=False)
     # make sure alignments 16..256 all occur
     import random
     rng = random.Random("c12/%d" % vlib.seed())
@@ -181,11 +181,14 @@ def run(tier):
             jobs.append({"family": "multi_subgraph:" + kind, "seed": "c12m-%d-%d" % (vlib.seed(), rep), "args": compiles.config_args(rng), "capture": False})
     # every allocator with CPU tensor alignments above 16 on networks without buffered weights (pooling / elementwise / CPU
     # tails): the padding the allocator inserts below a range must show in the reported size and the scratch tensor
-    al_fams = ["single:maxpool", "ew_dag", "mixed_cpu", "multi_input", "single:avgpool", "single:add", "mixed_cpu", "ew_dag"]
-    for rep in range(16 if tier == "quick" else 300):
+    al_fams = ["single:maxpool", "ew_dag", "mixed_cpu", "multi_input", "single:avgpool", "single:add", "single:maxpool"]
+    for rep in range(36 if tier == "quick" else 400):
         jobs.append({"family": al_fams[rep % len(al_fams)], "seed": "c12a-%d-%d" % (vlib.seed(), rep),
-                     "args": ["--accelerator-config", ["ethos-u55-128", "ethos-u65-256"][rep % 2], "--tensor-allocator",
-                              ["Greedy", "Greedy", "LinearAlloc", "HillClimb"][rep % 4], "--cpu-tensor-alignment", ["64", "256", "128"][rep % 3]],
+                     "args": (["--accelerator-config", "ethos-u55-128", "--config", compiles.CONFIG_INI, "--system-config",
+                               "Ethos_U55_High_End_Embedded", "--memory-mode", "Shared_Sram"] if rep % 2 == 0 else
+                              ["--accelerator-config", "ethos-u65-256"]) +
+                             ["--tensor-allocator", ["Greedy", "Greedy", "Greedy", "LinearAlloc", "HillClimb"][rep % 5],
+                              "--cpu-tensor-alignment", ["64", "256", "128"][rep % 3]],
                      "capture": False})
     # 16-bit producers, a type-narrowing QUANTIZE and 8-bit consumers in one cascade (rolling buffers whose element size
     # differs between producer and consumer), at the SRAM budgets that make the scheduler cascade them
